@@ -228,6 +228,9 @@ class Neighbor:
         self.rib.reset()
         self.messages = deque()
         self.refresh = deque()
+        # an End-of-RIB asked for on the session which ended is not owed to the next one
+        # (it was sent in the middle of the routes announced again, then once more after them)
+        self.eor = deque()
 
     # back to square one, all the routes are removed
     def clear_rib(self) -> None:
